@@ -292,9 +292,7 @@ def build_proofs(pid: str, timeout: int = 1500) -> ProofResult:
     with build_lock():
         regen_coqproject()
         try:
-            targets = [f"{pid}/Property.vo"]
-            if os.path.exists(os.path.join(COQ, pid, "Run.v")):
-                targets.append(f"{pid}/Run.vo")
+            targets = pid_targets(pid)
             r = _run(["make", "-C", COQ, f"-j{NPROC}"] + targets, timeout=timeout)
         except subprocess.TimeoutExpired:
             return ProofResult(False, len(theorems), 0, theorems, {}, "make timed out", cmd,
@@ -346,6 +344,48 @@ def coqchk(pid: str, timeout: int = 1800) -> tuple[bool, str]:
 # running the model inside Coq
 
 
+_ENSURED: set[str] = set()
+
+
+def header_targets(header: str) -> list[str]:
+    """The make targets (dir/File.vo) of the project modules a Require/Import prelude names."""
+    dirs = {logical_name(d): d for d in coq_dirs()}
+    names: list[str] = []
+    for m in re.finditer(r"(?:From\s+([A-Za-z0-9_.]+)\s+)?Require\s+(?:Import|Export)?\s*([^.]*(?:\.[A-Za-z0-9_]+[^.]*)*)\.(?:\s|$)", header):
+        pre = m.group(1)
+        for w in m.group(2).split():
+            names.append(f"{pre}.{w}" if pre else w)
+    out = []
+    for n in names:
+        parts = n.split(".")
+        if len(parts) >= 2 and parts[0] in dirs:
+            f = os.path.join(dirs[parts[0]], *parts[1:]) + ".v"
+            if os.path.exists(os.path.join(COQ, f)):
+                out.append(f + "o")
+    return out
+
+
+def ensure_modules(header: str) -> None:
+    """Build (under the build lock) every project module the prelude requires: a fresh checkout has
+    only what Property.vo and Run.vo depend on."""
+    todo = [t for t in header_targets(header) if t not in _ENSURED]
+    missing = [t for t in todo if not os.path.exists(os.path.join(COQ, t))]
+    if missing:
+        with build_lock():
+            regen_coqproject()
+            r = _run(["make", "-C", COQ, f"-j{NPROC}"] + todo, timeout=1500)
+        if r.returncode != 0:
+            raise RuntimeError("building the modules the evaluation prelude requires failed:\n" + r.stdout[-3000:])
+    _ENSURED.update(todo)
+
+
+def pid_targets(pid: str) -> list[str]:
+    """Every module in coq/<pid>/ (Property, Run, and whatever else the check evaluates or cites)."""
+    d = os.path.join(COQ, pid)
+    return [f"{pid}/{f}o" for f in sorted(os.listdir(d))
+            if f.endswith(".v") and not f.startswith("Cases") and not f.startswith(".")]
+
+
 def coq_eval(pid: str, header: str, fn: str, terms: list[str], shard: int = 400,
              timeout: int = 900, tag: str = "Cases") -> list[str]:
     """Evaluate ``fn term`` (a Coq ``string``) for every term with vm_compute, sharded
@@ -353,6 +393,7 @@ def coq_eval(pid: str, header: str, fn: str, terms: list[str], shard: int = 400,
     result line per term.  Result strings must not contain newlines or double quotes."""
     if not terms:
         return []
+    ensure_modules(header)
     wd = os.path.join(WORK, pid, f"{tag}_{os.getpid()}")
     shutil.rmtree(wd, ignore_errors=True)
     os.makedirs(wd)
